@@ -76,14 +76,23 @@ def run(R):
             got[kn] = (bb, b.origin(t['args'][2]))
             R.check(b.dominates(ib, bb), 'C03.R1', 'insert-after-into_http:%s' % kn, site(b, bb), 'header %s inserted into the request built by into_http' % kn)
         te = got.get('TE')
+        if te is not None:
+            tv_ = strip_refs(mirlib.simplify(te[1]))
+            # `if let Some(te) = <value known to be Some(x)>`: the payload of a Some built on the way
+            if tv_ and tv_[0] == 'field' and strip_refs(tv_[1])[0] == 'variant' and strip_refs(tv_[1])[2] == 'Some':
+                inner_ = strip_refs(strip_refs(tv_[1])[1])
+                if inner_ and inner_[0] == 'agg' and inner_[1].get('variant') == 'Some' and inner_[2]:
+                    tv_ = strip_refs(inner_[2][0])
+            te = (te[0], tv_)
         R.check(te is not None and is_call(te[1], name='from_static') and const_val(te[1][2][0]) == W['te'], 'C03.R1', 'te-trailers', site(b, te[0]) if te else site(b), 'te = %s' % (show(te[1]) if te else None))
         ct = got.get('CONTENT_TYPE')
         R.check(ct is not None and (constdef(ct[1]) or '').endswith('GRPC_CONTENT_TYPE'), 'C03.R1', 'content-type', site(b, ct[0]) if ct else site(b), 'content-type = %s' % (show(ct[1]) if ct else None))
         R.eq(header_name_value(tonic, 'metadata::GRPC_CONTENT_TYPE'), W['content_type'], 'C03.R1', 'GRPC_CONTENT_TYPE', 'tonic/src/metadata/mod.rs', 'GRPC_CONTENT_TYPE')
         for bb in (x[0] for x in (te, ct) if x):
             R.check(all(rb not in b.reachable(bb) for rb, rt in b.calls(pat='HeaderMap', name='remove')), 'C03.R1', 'no-remove-after', site(b, bb), 'no HeaderMap::remove follows')
+            feas_ = b.reach_ps(0, removed={bb})
             for rb in b.return_blocks():
-                R.check(b.dominates(bb, rb), 'C03.R1', 'insert-unconditional:%s' % ('te' if te and bb == te[0] else 'ct'), site(b, bb), 'insert dominates the return')
+                R.check(b.dominates(bb, rb) or rb not in feas_, 'C03.R1', 'insert-unconditional:%s' % ('te' if te and bb == te[0] else 'ct'), site(b, bb), 'every feasible path to the return passes the insert')
         # path placement: both arms write parts.path_and_query from `path`
         wr = [(bb, i, st) for bb, i, st in mirlib.assignments(b, lambda st: mirlib.place_fields(st['p'])[-1:] == ['path_and_query'])]
         path_n = param_of_type(b, r'PathAndQuery$')
@@ -127,20 +136,20 @@ def run(R):
         # each of version / method / uri: the parameter of that type is what ends up in the request head — through the setter
         # (*request.uri_mut() = uri) or by filling in http::request::Parts (head.uri = uri; Request::from_parts(head, body))
         for fld, ty in (('version', r'(^|::)Version$'), ('method', r'(^|::)Method$'), ('uri', r'(^|::)Uri$')):
-            pn_ = param_of_type(rh, ty)
+            loc_ = loc_of_type(tonic, rh, ty)   # a parameter of that type, or that field of a request-line struct parameter
             okv = False
             how = None
             for bb, t in rh.calls(name=fld + '_mut'):
                 for wb, i, st in mirlib.assignments(rh, lambda st: st['p'].get('pr') == ['*'] and st['p']['l'] == t['dest']['l']):
                     v = strip_refs(rh._origin_def(('stmt', wb, i, st['rv']), 0, set()))
-                    okv = v[0] == 'arg' and v[1] == pn_
+                    okv = loc_of(v) == loc_
                     how = '*request.%s_mut() = %s' % (fld, show(v))
             for wb, i, st in mirlib.assignments(rh, lambda st: mirlib.place_fields(st['p'])[-1:] == [fld]):
                 tyl = rh.ty(st['p']['l'])
                 if 'Parts' in tyl and 'request' in tyl:
                     v = strip_refs(rh._origin_def(('stmt', wb, i, st['rv']), 0, set()))
                     fp = rh.calls(pat='http::Request', name='from_parts')
-                    okv = v[0] == 'arg' and v[1] == pn_ and len(fp) == 1 and mirlib.root_local(rh, fp[0][1]['args'][0]) == st['p']['l'] and fp[0][1]['dest']['l'] == 0
+                    okv = loc_of(v) == loc_ and len(fp) == 1 and mirlib.root_local(rh, fp[0][1]['args'][0]) == st['p']['l'] and fp[0][1]['dest']['l'] == 0
                     how = 'parts.%s = %s; Request::from_parts(parts, ..)' % (fld, show(v))
             R.check(okv, 'C03.R1', 'Request::into_http:%s' % fld, site(rh), 'the %s parameter is installed in the request: %s' % (fld, how))
         nw = rh.calls(pat='http::Request', name='new')
@@ -212,11 +221,11 @@ def run(R):
         pn = tonic.body(re.compile(r'codec::encode::EncodedBytes<T, U> as .*Stream>::poll_next$'))
         bb, t = pn.call1(name='encode_item')
         ei_ = tonic.body('codec::encode::encode_item')
-        via_ = loc_through_call(pn, t, loc_of_type(tonic, ei_, r'Option<.*CompressionEncoding>'))
+        via_ = loc_through_call(pn, t, loc_of_type(tonic, ei_, enc_opt_pat(tonic)))
         enc_t = via_[1] if via_ and via_[0] == 'term' else (None if not via_ else ('arg', via_[1][0], None) if not via_[1][1] else ('field', ('arg', via_[1][0], None), via_[1][1][-1]))
-        R.check(enc_t is not None and 'compression_encoding' in show(enc_t), 'C03.R4', 'effective-encoding-to-encode_item', site(pn, bb), 'encoding = %s' % (show(enc_t) if enc_t else None))
+        R.check(enc_t is not None and enc_field(tonic, 'codec::encode::EncodedBytes') in show(enc_t), 'C03.R4', 'effective-encoding-to-encode_item', site(pn, bb), 'encoding = %s' % (show(enc_t) if enc_t else None))
         ei = tonic.body('codec::encode::encode_item')
-        enc_loc = loc_of_type(tonic, ei, r'Option<.*CompressionEncoding>')
+        enc_loc = loc_of_type(tonic, ei, enc_opt_pat(tonic))
         sw = [x for x in sorted(ei.live_blocks()) if ei.term(x)['k'] == 'switch' and ei.origin(ei.term(x)['on'])[0] == 'discr' and is_loc(ei.origin(ei.term(x)['on'])[1], enc_loc)]
         R.check(len(sw) == 1, 'C03.R4', 'compress-iff-encoding', site(ei), 'switch on compression_encoding: %d' % len(sw))
         if sw:
@@ -233,6 +242,9 @@ def run(R):
             R.check(okn, 'C03.R4', 'no-compress-on-none-arm', site(ei, cb), 'without an encoding (flag 0) compress() is unreachable: %r' % okn)
             st = strip_refs(ei.origin(ct['args'][0]))
             okenc = st[0] == 'agg' and term_contains(st[2][0], lambda x: x and x[0] == 'variant' and x[2] == 'Some') and mentions_loc(st[2][0], enc_loc)
+            if st[0] != 'agg':
+                # the parameter already is Option<settings>: compress gets the Some payload itself
+                okenc = term_contains(st, lambda x: x and x[0] == 'variant' and x[2] == 'Some') and mentions_loc(st, enc_loc) and not find_terms(st, lambda x: is_call(x))
             R.check(okenc, 'C03.R4', 'compress-with-that-encoding', site(ei, cb), 'settings.encoding = %s' % show(st[2][0] if st[0] == 'agg' else st))
 
     if R.tier == 'thorough':
@@ -294,4 +306,4 @@ def run(R):
             R.check(okc, 'C03.R5', 'ctor:%s' % ctor, site(cb), 'EncodeState{role: %s, is_end_stream: false}' % role)
         # grpc-status inserted exactly once per header map: C04.R4 covers add_header; here: to_header_map -> add_header
         th = tonic.body('status::Status::to_header_map')
-        R.check(len(th.calls(name='add_header')) == 1, 'C03.R5', 'to_header_map->add_header', site(th), 'to_header_map builds the map with add_header')
+        R.check(len(writer_entry_blocks(tonic, th)) == 1, 'C03.R5', 'to_header_map->add_header', site(th), 'to_header_map builds the map with add_header')
